@@ -1074,3 +1074,81 @@ pub fn with_shared<R>(ctx: &mut Ctx, junos: Junos, delays_ms: Vec<u64>, f: impl 
     let junos = std::mem::take(&mut g.junos);
     (r, junos)
 }
+
+// ---------------------------------------------------------------------------------------------
+// FakeJunos behind a real TLS listener (for the agent executable, which runs as a child process)
+// ---------------------------------------------------------------------------------------------
+
+/// Serve `junos` as a NETCONF-over-TLS server on 127.0.0.1:<ephemeral port> (real clock, own
+/// thread and runtime) until `stop` is set: every connection is one session of the model; the
+/// bytes read are handed to `Junos::on_bytes` and its replies written back at once.
+pub fn serve_junos_tls(junos: Arc<Mutex<Junos>>, stop: Arc<std::sync::atomic::AtomicBool>) -> std::io::Result<(u16, std::thread::JoinHandle<()>)> {
+    use std::sync::atomic::Ordering;
+    use tokio::io::{AsyncReadExt, AsyncWriteExt};
+    let std_listener = std::net::TcpListener::bind("127.0.0.1:0")?;
+    std_listener.set_nonblocking(true)?;
+    let port = std_listener.local_addr()?.port();
+    let t = std::thread::spawn(move || {
+        let rt = tokio::runtime::Builder::new_current_thread().enable_all().build().expect("runtime");
+        rt.block_on(async move {
+            let listener = tokio::net::TcpListener::from_std(std_listener).expect("listener");
+            let acceptor = crate::rsim::tls_acceptor();
+            while !stop.load(Ordering::Relaxed) {
+                let accepted = tokio::time::timeout(Duration::from_millis(5), listener.accept()).await;
+                let Ok(Ok((tcp, _))) = accepted else { continue };
+                let _ = tcp.set_nodelay(true);
+                let Ok(mut tls) = acceptor.accept(tcp).await else { continue };
+                let sid = {
+                    let mut j = junos.lock().unwrap();
+                    let sid = j.sessions.len();
+                    j.sessions.push(SessionState::default());
+                    j.connection_attempts.push(0);
+                    sid
+                };
+                let hello = crate::ssim::hello_with(&SERVER_CAPS, &format!("{}", 100 + sid));
+                if tls.write_all(&hello).await.is_err() || tls.flush().await.is_err() {
+                    continue;
+                }
+                let mut buf = vec![0u8; 16384];
+                loop {
+                    if stop.load(Ordering::Relaxed) {
+                        break;
+                    }
+                    let n = match tokio::time::timeout(Duration::from_millis(20), tls.read(&mut buf)).await {
+                        Err(_) => continue,
+                        Ok(Ok(0)) | Ok(Err(_)) => break,
+                        Ok(Ok(n)) => n,
+                    };
+                    let (replies, close) = {
+                        let mut j = junos.lock().unwrap();
+                        let r = j.on_bytes(sid, &buf[..n], 0);
+                        for (_, req) in &r {
+                            if let Some(k) = req {
+                                if let Some(rec) = j.sessions[sid].log.get_mut(*k) {
+                                    rec.delivered = true;
+                                }
+                            }
+                        }
+                        (r, j.sessions[sid].close_when_drained)
+                    };
+                    let mut failed = false;
+                    for (bytes, _) in replies {
+                        if tls.write_all(&bytes).await.is_err() {
+                            failed = true;
+                            break;
+                        }
+                    }
+                    if failed || tls.flush().await.is_err() {
+                        break;
+                    }
+                    if close {
+                        let _ = tls.shutdown().await;
+                        junos.lock().unwrap().sessions[sid].closed_by_server = true;
+                        break;
+                    }
+                }
+            }
+        });
+    });
+    Ok((port, t))
+}
